@@ -10,7 +10,7 @@ RULE = ('cases = (size n, strategy, element type, matrix family). Sizes 1..12 an
         'diagonally dominant, SPD, orthogonal*diag*orthogonal with cond in {1,10,1000}, row permutations of dominant matrices (pivoted strategies). Each case draws 10 run-time matrices and '
         'requires max(|AX-I|,|XA-I|)_inf <= 16*n*u*cond_inf(A) (residuals and cond in long double; for a strategy without pivoting cond is the worst leading-block condition number, for a pivoted one that of the '
         'library-pre-pivoted matrix; inputs whose leading blocks exceed cond 1e3 are counted, not judged); NaN/inf in X is a violation; painted+framed result. Also lazy inv(A), inverse(expr), '
-        'tinverse on unit-lower / upper triangular inputs (structure preserved exactly) at both ends of every size class of the triangular dispatchers up to 64 (128|129 thorough), batched inverse. non-trivial = n>=2; distinct = case keys; the evidence reports the largest observed residual/bound ratio.')
+        'tinverse on unit-lower / upper triangular inputs (structure preserved exactly) at both ends of every size class of the triangular dispatchers up to 64 (65, 96 thorough), batched inverse. non-trivial = n>=2; distinct = case keys; the evidence reports the largest observed residual/bound ratio.')
 ASSUMPTIONS = ['long-double Gauss-Jordan with partial pivoting as reference for cond(A)', 'constant c=16 (observed ratios on the pinned tree stay below 0.7)']
 
 
@@ -47,7 +47,7 @@ def generate(seed, tier):
             cases[key] = (n, Case(key, 'VP_CASE("@KEY@", vp::lin::tinv_case<%s,%d>);' % (tn, n)))
     # the triangular inverses (and the block inverse built on them) are separate hand-written code per size class (0,4],(4,8],(8,16],(16,32],(32,64],(64,128]:
     # both ends of every class up to 64 in the quick tier (one element type each, rotating), the next class in the thorough tier
-    for i, n in enumerate([8, 12, 16, 17, 24, 32, 33, 48, 64] + ([] if quick else [65, 96, 128, 129])):
+    for i, n in enumerate([8, 12, 16, 17, 24, 32, 33, 48, 64] + ([] if quick else [65, 96])):
         for tn, tk in ([FT[(i + seed) % 2]] if (quick or n > 64) else FT):
             key = 'C10|tinverse|%s|n=%d' % (tk, n)
             cases[key] = (n, Case(key, 'VP_CASE("@KEY@", vp::lin::tinv_case<%s,%d>);' % (tn, n)))
